@@ -260,8 +260,23 @@ Definition code_elem (orow ocol : list nat) (e : result (option (list nat * list
   | Error _ => (-1)%Z
   end.
 
-(* [1] if the call is rejected, else 0 :: N :: result dims ++ one number per entry that is not zero:
-   (x*D + y) * (R*C + 1) + code, or -(x*D + y) - 1 when the model cannot evaluate the entry *)
+(* Coq prints about 3000 numerals per second whatever their size: pack 24 cells (each < 2^40 - 1)
+   into one number, most significant first, each stored as cell + 1 in a 40-bit field *)
+Fixpoint pack_go (fuel : nat) (acc : Z) (l : list Z) : Z * list Z :=
+  match fuel, l with
+  | S f, c :: r => pack_go f (Z.shiftl acc 40 + (c + 1))%Z r
+  | _, _ => (acc, l)
+  end.
+
+Fixpoint pack40 (fuel : nat) (l : list Z) : list Z :=
+  match fuel, l with
+  | S f, _ :: _ => let '(w, r) := pack_go 24 0%Z l in w :: pack40 f r
+  | _, _ => []
+  end.
+
+(* [1] if the call is rejected, else 0 :: N :: result dims ++ #cells :: pack40 cells, one cell per
+   entry (x,y) that is not zero, in row-major order:  (x*D + y) * (R*C + 1) + code  with
+   code = 1 + r*C + c, or code = 0 when the model cannot evaluate the entry *)
 Definition expand_table_z (dims orow ocol : list nat) (ts : tspec) : list Z :=
   match expand_plan dims orow ocol ts with
   | Error _ => [1%Z]
@@ -272,14 +287,15 @@ Definition expand_table_z (dims orow ocol : list nat) (ts : tspec) : list Z :=
       (* (flat index, unpermuted label) of every basis label; plan_elem p x y is by definition
          elem_of (p_k p) (unpermute (p_order p) x) (unpermute (p_order p) y) *)
       let labels := map (fun x => (flatZ rd x, unpermute (p_order p) x)) (all_digits rd) in
-      0%Z :: Z.of_nat (length rd) :: map Z.of_nat rd ++
-      flat_map (fun ix => flat_map (fun iy =>
+      let cells :=
+        flat_map (fun ix => flat_map (fun iy =>
                   let pos := (fst ix * D + fst iy)%Z in
                   match code_elem orow ocol (elem_of (p_k p) (snd ix) (snd iy)) with
                   | Z0 => []
                   | Zpos c => [(pos * M + Zpos c)%Z]
-                  | Zneg _ => [(- pos - 1)%Z]
-                  end) labels) labels
+                  | Zneg _ => [(pos * M)%Z]
+                  end) labels) labels in
+      0%Z :: Z.of_nat (length rd) :: map Z.of_nat rd ++ Z.of_nat (length cells) :: pack40 (length cells) cells
   end.
 
 (* same header, then the code of each queried entry *)
